@@ -1,9 +1,15 @@
-"""Extractor for the Ralph governance parsers -> lean/Whv/Gen/C15.lean.
+"""C15 - governance requests become exactly the VAA the contracts parse, or are rejected.
+
+gen(ctx): extractor for the Ralph governance parsers -> lean/Whv/Gen/C15.lean.
 
 For each governance action the contracts accept, the slice bounds `byteVecSlice!(payload, a, b)`, the width of the
 `u256From<N>Byte!` conversion wrapped around it, the action byte, the module constant and the `size!(payload) == k`
 equation are read from the sources of /repo's working tree.  The contracts cannot be executed here (no compiler, no VM):
 this extraction is the only tie to them, so every pattern that is not found fails loudly (ctx.gen_fail).
+
+run(ctx): Gen -> lake build Whv.Props.C15 + drv_gov (axiom audit) -> Go harness (overlay, p2p stub) over the real
+InjectGovernanceVAA -> Lean driver: Spec on the implementation's own VAAs first, then model-vs-implementation diff.
+`./check C15 --replay <file>` re-executes the recorded request(s) against the real code of the current tree.
 """
 import os, re
 import vlib
@@ -265,6 +271,13 @@ OVERLAY = {"node/cmd/guardiand/zz_verif_c15_test.go": "guardiand/c15_gov_verif_t
 
 def classify(clause, case, verdict):
     return clause
+
+
+def warm(ctx):
+    """setup: compile package guardiand + harness once so that the quick tier only links from the build cache"""
+    ov = ctx.overlay(OVERLAY, p2p_stub=True)
+    if ov:
+        ctx.go_test("node", "./cmd/guardiand", "^$", ov)
 
 
 def run(ctx):
